@@ -55,6 +55,23 @@ func fsStartSim(r *simcore.Run) {
 	// src may name a single file instead of a directory
 	singleFile := s.Draw(3, "src-is-a-file") == 2
 	src := dir
+	// a Kubernetes ConfigMap / Secret volume: <dir>/a.yaml -> ..data/a.yaml, ..data -> ..<version>/; an update creates a
+	// new version directory and renames a new ..data symlink over the old one
+	kubelet := singleFile && s.Draw(2, "kubelet-volume") == 1
+	if kubelet {
+		write = func(n string, v int) {
+			vdir := filepath.Join(dir, fmt.Sprintf("..v%d", v))
+			os.Mkdir(vdir, 0o700)
+			os.WriteFile(filepath.Join(vdir, n), []byte(provsim.RuleSetYAML(strings.TrimSuffix(n, ".yaml"), v, 1)), 0o600)
+			os.Symlink(filepath.Base(vdir), filepath.Join(dir, "..data_tmp"))
+			os.Rename(filepath.Join(dir, "..data_tmp"), filepath.Join(dir, "..data"))
+			if _, err := os.Lstat(path(n)); err != nil {
+				os.Symlink(filepath.Join("..data", n), path(n))
+			}
+			version[n] = v
+		}
+		r.Count("kubelet-volumes", 1)
+	}
 	if singleFile {
 		names = names[:1]
 		src = path("a.yaml")
@@ -147,7 +164,7 @@ func fsStartSim(r *simcore.Run) {
 			keys = append(keys, filepath.Base(k)+"="+v)
 		}
 		sort.Strings(keys)
-		r.Fail("no-convergence-after-faults-stopped", "file_system/"+map[bool]string{false: "change-during-start", true: "single-file-replaced"}[singleFile], "3s after the provider started and the last write (%v) the active rule sets still differ from the directory: %s", opsLog, why)
+		r.Fail("no-convergence-after-faults-stopped", "file_system/"+map[bool]string{false: "change-during-start", true: "single-file-replaced"}[singleFile]+map[bool]string{true: "/symlink-swap"}[kubelet], "3s after the provider started and the last write (%v) the active rule sets still differ from the directory: %s", opsLog, why)
 		return
 	}
 	r.Count("starts-converged", 1)
